@@ -1,13 +1,19 @@
 (* Extraction of the executable models for the correspondence runner `modelrun`.
    Directives used: exactly those of ExtrOcamlBasic (bool, option, unit, list, prod, sumbool,
-   sumor to their OCaml counterparts); N, Z, positive, nat, ascii stay extracted inductives. *)
+   sumor to their OCaml counterparts); N, Z, positive, nat, ascii, string stay extracted inductives. *)
 Require Extraction.
 Require ExtrOcamlBasic.
-From Coq Require Import List NArith.
-From BV Require Import Fmt Gen.Escapes.
+From Coq Require Import List NArith ZArith String.
+From BV Require Import Base Fmt Gen.Escapes Buf Codec Get Gen.GetPut.
 Extraction Language OCaml.
 Extraction "model.ml"
   Fmt.parse_lit Fmt.debug_fmt Fmt.hex_fmt Fmt.unhex Fmt.tbl_of Fmt.visit Fmt.serialize Fmt.is_lower_hex Fmt.is_upper_hex
   Gen.Escapes.bytes_debug_codes Gen.Escapes.bytesmut_debug_codes Gen.Escapes.bytes_lower_codes
   Gen.Escapes.bytesmut_lower_codes Gen.Escapes.bytes_upper_codes Gen.Escapes.bytesmut_upper_codes
-  N.of_nat N.to_nat N.add N.mul N.eqb N.compare.
+  N.of_nat N.to_nat N.add N.mul N.eqb N.compare N.leb N.ltb N.sub N.min Z.of_N
+  Base.lenN Base.firstnN Base.skipN Base.usize_max
+  Buf.den Buf.remaining Buf.has_remaining Buf.chunk Buf.advance Buf.cv Buf.copy_to_slice Buf.try_copy_to_slice_d
+  Buf.copy_to_bytes Buf.iter_take Buf.reader_read Buf.set_limit_at
+  Codec.dec Codec.spec_of_getter Codec.spec_of_putter Codec.enc
+  Get.get Get.tables_ok
+  Gen.GetPut.getters Gen.GetPut.putters Gen.GetPut.buf_forward Gen.GetPut.bufmut_forward Gen.GetPut.take_len.
